@@ -423,6 +423,16 @@ def _mask(ctx) -> None:
     ctx.ob("d.dispatch-exhaustive", tg, "row-bounds", bounded, "t[i]: IndexError unless -len(t) <= i < len(t), before Row(self, i)", tg.node,
            message="Table.__getitem__(int) makes Row(self, key) without comparing the position with the row count: t[99] returns a hollow Row "
                    "that only fails when a cell is read")
+    # an operand that IS the receiver (t == t, v[v]) is duplicated with copy(), never with copy.deepcopy (deepcopy of a Table
+    # probes the half-built copy through Table.__getattr__ and never terminates)
+    cd = prog.func("vector.Vector._check_duplicate")
+    ci = _iof(prog, cd)
+    CO = ("param", cd.params[1])
+    bad_dup = [show(e.term, ci)[:40] for e in ci.events if e.kind == "return" and e.depth == 0
+               and e.term not in (CO, ("call", ("attr", CO, "copy"), (), ()))]
+    ctx.ob("d.dispatch-exhaustive", cd, "self-operand", not bad_dup, "_check_duplicate returns the operand or operand.copy()", cd.node,
+           message=f"_check_duplicate returns {bad_dup}: copy.deepcopy (or anything but .copy()) of an operand that is a Table does not terminate "
+                   f"- t == t would raise RecursionError")
     ctx.ob("d.dispatch-exhaustive", f, "final-raise", ok, "unsupported key types raise SerifTypeError", f.node,
            message="Vector.__getitem__ can fall off its end (or return None) for an unsupported key type instead of raising SerifTypeError")
 
@@ -623,6 +633,8 @@ def _rows(ctx) -> None:
 
 _V, _T = "vector", "table"
 MUTANTS = [
+    dict(id="self-operand-deepcopied", module="vector", old="			return other.copy()", new="			return deepcopy(other)",
+         rules=["d.dispatch-exhaustive"], desc="the defect repaired by fix f22891c: t == t raises RecursionError"),
     dict(id="table-getitem-falls-off", module="table",
          old="		raise SerifTypeError(\n			f'Table indices must be column names, integers, slices, boolean vectors or integer vectors, not {type(key).__name__}'\n		)\n",
          new="", rules=["d.dispatch-exhaustive"], desc="the defect repaired by fix 1f309df"),
